@@ -175,6 +175,7 @@ func cmdGen(args []string) {
 	defer f.Close()
 	for i := 0; i < *n; i++ {
 		r := rand.New(rand.NewSource(*seed*1000003 + int64(i)))
+		genIndex = i
 		var s Schedule
 		s.ID = fmt.Sprintf("%s-walk-%d-%d", *family, *seed, i)
 		s.Scene = *family
@@ -200,5 +201,7 @@ func cmdGen(args []string) {
 		f.Write([]byte("\n"))
 	}
 }
+
+var genIndex int // index of the schedule being generated (scripted prefixes are placed deterministically)
 
 var extraGens = map[string]func(r *rand.Rand, depth int) (string, []Step){}
